@@ -38,7 +38,10 @@ def build_hub(eng, k):
         mc = eng.new_obj(H.MemoryController, {'mem': ram, 'beginning': beg, 'end': sym.add(beg, size)}, tag='mc%d' % i)
         devs.append((beg, size, ba, ram, mc))
         mcs.append(mc)
-    hub = eng.new_obj(H.MemoryControllerHub, {'memories': eng.register(mcs)}, tag='hub')
+    # the hub object is built by its real constructor (so that fields a later version adds exist with their initial values),
+    # then given the symbolic controller list
+    hub = eng.call(H.MemoryControllerHub, [])
+    hub.attrs['memories'] = eng.register(mcs)
     eng.small_model_hints = [sym.zb(land(cmp('<=', sz, 4096), cmp('<=', beg, 1 << 20))) for (beg, sz, _, _, _) in devs]
     return hub, devs
 
@@ -89,6 +92,8 @@ def hub_unit(kind, k, size):
         def same(x, y):
             return sym.SymBool(z3.Select(x, probe) == z3.Select(y, probe))
         fm, unmapped = first_match(devs, a)
+        hub0 = dict(hub.attrs)
+        mem_list = hub.attrs['memories']
         raised = None
         r = None
         try:
@@ -102,6 +107,14 @@ def hub_unit(kind, k, size):
                    detail=getattr(raised, '__name__', ''))
         if raised is not None:
             return
+        # the hub keeps no state of its own besides the controller list: an access leaves its fields as they were
+        # (a lookup cache or a "last device" field would make the result of an access depend on the access history)
+        changed = [k_ for k_, v_ in hub.attrs.items() if k_ != 'memories' and v_ is not hub0.get(k_) and not (
+            sym.is_intlike(v_) and sym.is_intlike(hub0.get(k_)) and eng.prove(sym.zb(values_eq(v_, hub0.get(k_)))))]
+        eng.oblige('frame.hub', 'an access changes no field of the hub object itself (no hidden history)', not changed,
+                   detail='fields changed: %s' % changed)
+        eng.oblige('frame.hub', 'the controller list is not reordered or replaced', hub.attrs['memories'] is mem_list and
+                   len(mem_list) == len(devs) and all(x is y[4] for x, y in zip(mem_list, devs)))
         # representation invariant and isolation
         named = []
         for i, (beg, sz, ba, ram, mc) in enumerate(devs):
@@ -145,6 +158,7 @@ def hub_unit(kind, k, size):
         d.paddress.physicaladdress = a
         lines = ['devices %s address %s size %d' % ([(hex(b), s) for b, s, _ in devs], hex(a), size)]
         before = [bytes(r.memory_array) for _, _, r in devs]
+        fields0 = {k_: (id(v_), repr(v_)[:200]) for k_, v_ in vars(hub).items() if k_ != 'memories'}
         exc = None
         r = None
         try:
@@ -156,6 +170,11 @@ def hub_unit(kind, k, size):
             exc = e
         lines.append('outcome: %s' % ('returned %r' % (r,) if exc is None else '%s: %s' % (type(exc).__name__, exc)))
         bad = exc is not None
+        if ob.get('kind') == 'frame.hub':
+            fields1 = {k_: (id(v_), repr(v_)[:200]) for k_, v_ in vars(hub).items() if k_ != 'memories'}
+            diff = sorted(k_ for k_ in fields1 if fields0.get(k_) != fields1[k_])
+            lines.append('hub fields changed by the access: %s' % diff)
+            return bool(diff), '\n'.join(lines)
         for i, (b, s, ram) in enumerate(devs):
             if len(ram.memory_array) != s:
                 lines.append('device %d changed size: %d -> %d' % (i, s, len(ram.memory_array)))
